@@ -87,7 +87,13 @@ impl r2d2::ManageConnection for FakeMgr {
     fn is_valid(&self, conn: &mut FakeConn) -> Result<(), FakeErr> {
         let mut g = self.script.lock().unwrap();
         g.calls.push((2, conn.serial, std::thread::current().id()));
-        if g.flags.get(&conn.serial).copied().unwrap_or(0) & 2 != 0 {
+        let f = g.flags.get(&conn.serial).copied().unwrap_or(0);
+        if f & 16 != 0 {
+            // fails this once; a second question would be answered with Ok
+            let _ = g.flags.insert(conn.serial, f & !16);
+            return Err(FakeErr);
+        }
+        if f & 2 != 0 {
             Err(FakeErr)
         } else {
             Ok(())
@@ -722,7 +728,7 @@ pub fn gen_case(rt: &tokio::runtime::Runtime, rng: &mut Rng, mgr: i64, maxlabels
     // which script flags can be realised on this backend
     let flag_choices: Vec<i64> = match (mgr, method) {
         (0, _) => vec![],
-        (1, _) => vec![0, 1, 2, 3, 8, 10],
+        (1, _) => vec![0, 1, 2, 3, 8, 10, 16, 16, 18],
         (2, 2) | (2, 3) => vec![1, 2, 3, 4, 6],
         _ => vec![1, 4],
     };
